@@ -274,3 +274,421 @@ pub fn search_c19(rng: &mut Rng, thorough: bool) -> SearchResult {
     r.sample(format!("forward(0.7) = {:e}", a.forward(Radians::new_unchecked(0.7)).get()));
     r
 }
+
+// ---------------------------------------------------------------- C15: projection round trips
+
+use a5::coordinate_systems::Cartesian;
+use a5::projections::dodecahedron::DodecahedronProjection;
+
+fn ang3(a: Cartesian, b: Cartesian) -> f64 {
+    let c = [a.y() * b.z() - a.z() * b.y(), a.z() * b.x() - a.x() * b.z(), a.x() * b.y() - a.y() * b.x()];
+    (c[0] * c[0] + c[1] * c[1] + c[2] * c[2]).sqrt().atan2(a.x() * b.x() + a.y() * b.y() + a.z() * b.z())
+}
+
+fn in_face_pentagon(f: Face) -> f64 {
+    a5::core::tiling::get_face_vertices().contains_point(f)
+}
+
+pub fn search_c15(rng: &mut Rng, thorough: bool) -> SearchResult {
+    use crate::geocorr::{projection_point, second_nearest};
+    let mut r = SearchResult::default();
+    r.rule = "sphere points (uniform, 1e-2..1e-10 from the 30 edges, near the 20 vertices, at/near face centres incl. the poles, on symmetry lines) projected relative to their nearest face: planar radius <= centre-to-vertex distance and inside the face pentagon, unprojection returns the point within 1e-12 rad; relative to the second-nearest face: outside that pentagon (up to rounding on the shared edge) and round trip within 1e-11; planar points inside every face pentagon: inverse then forward returns the point within 1e-12. non-trivial = distinct points".into();
+    let d = DodecahedronProjection::get_thread_local();
+    let n = if thorough { 2_000_000 } else { 200_000 };
+    let mut worst1: f64 = 0.0;
+    let mut worst2: f64 = 0.0;
+    for _ in 0..n {
+        let (t, p) = projection_point(rng);
+        let sp = Spherical::new(Radians::new_unchecked(t), Radians::new_unchecked(p));
+        let (first, second) = second_nearest(t, p);
+        r.evaluations += 1;
+        r.nontrivial += 1;
+        match d.forward(sp, first as u8) {
+            Ok(f) => {
+                let rad = (f.x() * f.x() + f.y() * f.y()).sqrt();
+                if !(rad <= a5::core::constants::DISTANCE_TO_VERTEX + 1e-12) || !(in_face_pentagon(f) > -1e-12) {
+                    r.viol("projection:nearest", format!("forward(theta {:e}, phi {:e}) relative to its nearest face {} = ({:e}, {:e}): outside the face pentagon (radius {:e})", t, p, first, f.x(), f.y(), rad));
+                }
+                match d.inverse(f, first as u8) {
+                    Ok(back) => {
+                        let e = ang3(to_cartesian(sp), to_cartesian(back));
+                        worst1 = worst1.max(e);
+                        if !(e <= 1e-12) {
+                            r.viol("projection:roundtrip", format!("forward/inverse of (theta {:e}, phi {:e}) on nearest face {}: {:e} rad apart", t, p, first, e));
+                        }
+                    }
+                    Err(e) => r.viol("projection:roundtrip", format!("inverse failed: {}", e)),
+                }
+            }
+            Err(e) => r.viol("projection:nearest", format!("forward failed: {}", e)),
+        }
+        if let Ok(f) = d.forward(sp, second as u8) {
+            if in_face_pentagon(f) > 0.0 {
+                // strictly inside the neighbour's pentagon: only acceptable on the shared edge itself
+                let m = {
+                    let v = a5::core::tiling::get_face_vertices();
+                    let vs = v.get_vertices_vec();
+                    let mut best = f64::INFINITY;
+                    for i in 0..5 {
+                        let (a, b) = (vs[i], vs[(i + 1) % 5]);
+                        let (ex, ey) = (b.x() - a.x(), b.y() - a.y());
+                        let l = (ex * ex + ey * ey).sqrt();
+                        best = best.min(((ex * (f.y() - a.y()) - ey * (f.x() - a.x())) / l).abs());
+                    }
+                    best
+                };
+                if m > 1e-9 {
+                    r.viol("projection:second", format!("forward(theta {:e}, phi {:e}) relative to the second-nearest face {} lies {:e} inside that face's pentagon", t, p, second, m));
+                }
+            }
+            if let Ok(back) = d.inverse(f, second as u8) {
+                let e = ang3(to_cartesian(sp), to_cartesian(back));
+                worst2 = worst2.max(e);
+                if !(e <= 1e-11) {
+                    r.viol("projection:second", format!("forward/inverse of (theta {:e}, phi {:e}) on the second-nearest face {}: {:e} rad apart", t, p, second, e));
+                }
+            }
+        }
+    }
+    // planar points in every face pentagon
+    let mut worst3: f64 = 0.0;
+    for _ in 0..(n / 2) {
+        let origin = rng.below(12) as u8;
+        let ang = std::f64::consts::TAU * rng.unit();
+        let rho = match rng.below(3) { 0 => 0.76 * rng.unit().sqrt(), 1 => 1e-8 * rng.unit(), _ => 0.61 + 0.01 * rng.unit() };
+        let f = Face::new(rho * ang.cos(), rho * ang.sin());
+        if in_face_pentagon(f) <= 0.0 {
+            continue;
+        }
+        r.evaluations += 1;
+        if let (Ok(sp),) = (d.inverse(f, origin),) {
+            if let Ok(f2) = d.forward(sp, origin) {
+                let e = ((f.x() - f2.x()).powi(2) + (f.y() - f2.y()).powi(2)).sqrt();
+                worst3 = worst3.max(e);
+                if !(e <= 1e-12) {
+                    r.viol("projection:planar", format!("inverse/forward of planar point ({:e}, {:e}) on face {}: off by {:e}", f.x(), f.y(), origin, e));
+                }
+            }
+        }
+    }
+    r.sample(format!("worst round trip: nearest face {:e} rad, second-nearest {:e} rad, planar {:e}", worst1, worst2, worst3));
+    r
+}
+
+// ---------------------------------------------------------------- C16: area preservation
+
+pub fn search_c16(rng: &mut Rng, thorough: bool) -> SearchResult {
+    let mut r = SearchResult::default();
+    r.rule = "small planar probe triangles (size min(1e-5, rho/500), random orientation, edges subdivided 8x) placed in each of the 10 sectors of all 12 faces: near the centre, along the internal seams, at edge midpoints, near vertices and in the reflected margin beyond the face edge, not straddling a seam: (area of the unprojected triangle on the sphere) / (planar area) equals 4*pi / (12 * face area) within 1e-4 relative. non-trivial = distinct probe triangles".into();
+    let d = DodecahedronProjection::get_thread_local();
+    let fv = a5::core::tiling::get_face_vertices();
+    let face_area = (fv.get_area() / 2.0).abs();
+    let k_want = 4.0 * std::f64::consts::PI / (12.0 * face_area);
+    let n = if thorough { 400_000 } else { 40_000 };
+    let mut worst: f64 = 0.0;
+    let edge = a5::core::constants::DISTANCE_TO_EDGE;
+    for _ in 0..n {
+        let origin = rng.below(12) as u8;
+        let sector = rng.below(10) as f64;
+        // polar angle inside the sector, away from its two bounding seams
+        let gamma = (sector + 0.08 + 0.84 * rng.unit()) * std::f64::consts::PI / 5.0;
+        let beta = {
+            let seg = gamma / (2.0 * std::f64::consts::PI / 5.0);
+            (seg - seg.round()) * (2.0 * std::f64::consts::PI / 5.0)
+        };
+        let x_edge = edge / beta.cos();
+        let rho = match rng.below(5) {
+            0 => 0.02 + 0.1 * rng.unit(),
+            1 => x_edge * (0.3 + 0.6 * rng.unit()),
+            2 => x_edge * (1.0 - 0.002 - 0.02 * rng.unit()),
+            3 => x_edge * (1.0 + 0.002 + 0.1 * rng.unit()), // reflected margin
+            _ => x_edge * rng.unit() * 0.97 + 0.01,
+        };
+        // probe size: small against the distance to the face centre (image edges are curved, the
+        // curvature grows like 1/rho) and each edge is subdivided, so that the polygon through the
+        // unprojected points approximates the image region to ~1e-7 relative
+        let h = 1e-5f64.min(rho / 500.0);
+        let rot = std::f64::consts::TAU * rng.unit();
+        let c = (rho * gamma.cos(), rho * gamma.sin());
+        let tri: Vec<Face> = (0..3).map(|k| {
+            let a = rot + k as f64 * std::f64::consts::TAU / 3.0;
+            Face::new(c.0 + h * a.cos(), c.1 + h * a.sin())
+        }).collect();
+        // all three corners must be on the same side of the face edge and in the same sector
+        let side = |f: &Face| {
+            let g = f.y().atan2(f.x());
+            let seg = g / (2.0 * std::f64::consts::PI / 5.0);
+            let b = (seg - seg.round()) * (2.0 * std::f64::consts::PI / 5.0);
+            let rr = (f.x() * f.x() + f.y() * f.y()).sqrt();
+            (rr * b.cos() > edge, ((g / (std::f64::consts::PI / 5.0)).floor() as i64).rem_euclid(10))
+        };
+        let s0 = side(&tri[0]);
+        if tri.iter().any(|f| side(f) != s0) {
+            continue;
+        }
+        let m = 8;
+        let mut poly: Vec<Face> = Vec::new();
+        for k in 0..3 {
+            let (p0, p1) = (tri[k], tri[(k + 1) % 3]);
+            for j in 0..m {
+                let t = j as f64 / m as f64;
+                poly.push(Face::new(p0.x() + t * (p1.x() - p0.x()), p0.y() + t * (p1.y() - p0.y())));
+            }
+        }
+        let sp: Vec<Cartesian> = match poly.iter().map(|f| d.inverse(*f, origin).map(to_cartesian)).collect::<Result<Vec<_>, _>>() {
+            Ok(v) => v,
+            Err(_) => continue,
+        };
+        // area of the (tiny) spherical polygon: fan of flat triangles from its first vertex
+        let a = sp[0];
+        let mut sx = [0.0f64; 3];
+        for j in 1..sp.len() - 1 {
+            let u = [sp[j].x() - a.x(), sp[j].y() - a.y(), sp[j].z() - a.z()];
+            let v = [sp[j + 1].x() - a.x(), sp[j + 1].y() - a.y(), sp[j + 1].z() - a.z()];
+            sx[0] += u[1] * v[2] - u[2] * v[1];
+            sx[1] += u[2] * v[0] - u[0] * v[2];
+            sx[2] += u[0] * v[1] - u[1] * v[0];
+        }
+        let sph = 0.5 * (sx[0] * sx[0] + sx[1] * sx[1] + sx[2] * sx[2]).sqrt();
+        let pl = 0.5 * ((tri[1].x() - tri[0].x()) * (tri[2].y() - tri[0].y()) - (tri[1].y() - tri[0].y()) * (tri[2].x() - tri[0].x())).abs();
+        let ratio = sph / pl;
+        r.evaluations += 1;
+        r.nontrivial += 1;
+        r.count(if s0.0 { "reflected_margin" } else { "inside_face" });
+        let rel = (ratio / k_want - 1.0).abs();
+        worst = worst.max(rel);
+        if !(rel <= 1e-4) {
+            r.viol("area", format!("probe triangle at ({:e}, {:e}) on face {} (sector {}, {}): area ratio {:e}, expected {:e} (relative error {:e})", c.0, c.1, origin, s0.1, if s0.0 { "beyond the edge" } else { "inside" }, ratio, k_want, rel));
+        }
+    }
+    r.sample(format!("constant 4*pi/(12*face area) = {:e}; worst relative deviation {:e}", k_want, worst));
+    r
+}
+
+// ---------------------------------------------------------------- C04: measured cell areas
+
+fn authalic_lat(lat_deg: f64) -> f64 {
+    AuthalicProjection.forward(Radians::new_unchecked(lat_deg.to_radians())).get()
+}
+
+/// area on the unit sphere of a ring given in lon/lat (finely subdivided edges), by the line
+/// integral of (sin(lat) - sin(lat_ref)) d(lon); differences are formed before trigonometry
+pub fn ring_area(ring: &[LonLat]) -> f64 {
+    let n = ring.len();
+    let p0 = authalic_lat(ring[0].latitude());
+    let s: Vec<f64> = ring.iter().map(|p| { let a = authalic_lat(p.latitude()); 2.0 * ((a + p0) / 2.0).cos() * ((a - p0) / 2.0).sin() }).collect();
+    let mut acc = 0.0;
+    for j in 0..n {
+        let k = (j + 1) % n;
+        // a vertex at a pole has no longitude of its own: the meridian segment to it contributes nothing
+        let polar = ring[j].latitude().abs() > 90.0 - 1e-7 || ring[k].latitude().abs() > 90.0 - 1e-7;
+        let dl = if polar { 0.0 } else { (ring[k].longitude() - ring[j].longitude()).to_radians() };
+        acc += dl * (s[j] + s[k]) / 2.0;
+    }
+    acc.abs()
+}
+
+pub fn search_c04(rng: &mut Rng, thorough: bool) -> SearchResult {
+    use a5::core::cell::{cell_to_boundary, cell_to_lonlat, lonlat_to_cell, CellToBoundaryOptions};
+    let mut r = SearchResult::default();
+    r.rule = "metadata: cell_area(r) * N(r) = authalic Earth area for r = 0..29 (N = 12, 60*4^(r-1)) within 1e-12 relative, get_num_cells(r) = N(r) (r <= 27; 28, 29 within 2^-52 relative by design); measured areas: for cells of every resolution 0..29 at random places, face centres, seams, vertices and near the poles, the area enclosed by the reported boundary with 32..512 subdivisions per edge equals 4*pi/N(r) within 1e-4 relative (cells whose ring encloses a pole are measured by a triangle fan in 3-D, r <= 8). non-trivial = distinct cells measured".into();
+    let earth = a5::cell_area(-1);
+    for res in 0..=29 {
+        let nn: f64 = if res == 0 { 12.0 } else { 60.0 * 4f64.powi(res - 1) };
+        r.evaluations += 1;
+        if ((a5::cell_area(res) * nn) / earth - 1.0).abs() > 1e-12 {
+            r.viol("area:table", format!("cell_area({}) * N = {:e}, Earth area {:e}", res, a5::cell_area(res) * nn, earth));
+        }
+        let cnt = a5::get_num_cells(res) as f64;
+        if (cnt / nn - 1.0).abs() > 2.3e-16 || (res <= 27 && cnt != nn) {
+            r.viol("area:count", format!("get_num_cells({}) = {}, expected {}", res, a5::get_num_cells(res), nn));
+        }
+    }
+    let n = if thorough { 60_000 } else { 6_000 };
+    let mut worst: f64 = 0.0;
+    let mut worst_at = String::new();
+    for k in 0..n {
+        let res = (k % 30) as i32;
+        let id = if k % 3 == 0 {
+            crate::geocorr::random_cell(rng, res)
+        } else {
+            let (lon, lat) = crate::geocorr::lookup_point(rng);
+            match lonlat_to_cell(LonLat::new(lon, lat.clamp(-90.0, 90.0)), res) { Ok(i) => i, Err(_) => continue }
+        };
+        // "finely subdivided": the polyline through the ring points is integrated with straight segments in
+        // (lon, sin lat), so large cells need more points per edge
+        let segs = if res <= 1 { 512 } else if res <= 4 { 128 } else { 32 };
+        let ring = cell_to_boundary(id, Some(CellToBoundaryOptions { closed_ring: false, segments: Some(segs) })).unwrap();
+        let nn: f64 = if res == 0 { 12.0 } else { 60.0 * 4f64.powi(res - 1) };
+        let want = 4.0 * std::f64::consts::PI / nn;
+        let area = if res < 8 {
+            // large cells: triangle fan around the centre in 3-D (Eriksson's formula), great-circle segments
+            let c = crate::cellsearch::unit(cell_to_lonlat(id).unwrap());
+            let mut acc = 0.0;
+            for j in 0..ring.len() {
+                let a = crate::cellsearch::unit(ring[j]);
+                let b = crate::cellsearch::unit(ring[(j + 1) % ring.len()]);
+                let t = crate::cellsearch::dot(c, crate::cellsearch::cross(a, b));
+                acc += 2.0 * t.atan2(1.0 + crate::cellsearch::dot(c, a) + crate::cellsearch::dot(a, b) + crate::cellsearch::dot(b, c));
+            }
+            acc.abs()
+        } else {
+            // small cells: orthographic coordinates in the tangent plane at the centre, computed from
+            // coordinate DIFFERENCES (no cancellation; valid at the poles, where a vertex has no longitude)
+            let c = cell_to_lonlat(id).unwrap();
+            let pc = authalic_lat(c.latitude());
+            let xy: Vec<(f64, f64)> = ring.iter().map(|p| {
+                let pj = authalic_lat(p.latitude());
+                let dl = (p.longitude() - c.longitude()).to_radians();
+                let x = pj.cos() * dl.sin();
+                let y = (pj - pc).sin() + 2.0 * pc.sin() * pj.cos() * (dl / 2.0).sin().powi(2);
+                (x, y)
+            }).collect();
+            let mut acc = 0.0;
+            for j in 0..xy.len() {
+                let k = (j + 1) % xy.len();
+                acc += xy[j].0 * xy[k].1 - xy[k].0 * xy[j].1;
+            }
+            (acc / 2.0).abs()
+        };
+        r.evaluations += 1;
+        r.nontrivial += 1;
+        let rel = (area / want - 1.0).abs();
+        if rel > worst {
+            worst = rel;
+            worst_at = format!("{:x} (resolution {})", id, res);
+        }
+        if !(rel <= 1e-4) {
+            r.viol("area:cell", format!("cell {:x} (resolution {}): measured area {:e} sr, expected 4*pi/N = {:e} (relative error {:e})", id, res, area, want, rel));
+        }
+    }
+    r.sample(format!("worst relative deviation of a measured cell area: {:e} at {}", worst, worst_at));
+    r
+}
+
+// ---------------------------------------------------------------- C12: children vs parent
+
+fn poly_area(p: &[(f64, f64)]) -> f64 {
+    let mut a = 0.0;
+    for j in 0..p.len() {
+        let k = (j + 1) % p.len();
+        a += p[j].0 * p[k].1 - p[k].0 * p[j].1;
+    }
+    a / 2.0
+}
+
+/// Sutherland-Hodgman: clip polygon `subject` against convex polygon `clip` (any winding)
+fn clip_convex(subject: &[(f64, f64)], clip: &[(f64, f64)]) -> Vec<(f64, f64)> {
+    let sign = if poly_area(clip) >= 0.0 { 1.0 } else { -1.0 };
+    let mut out: Vec<(f64, f64)> = subject.to_vec();
+    for j in 0..clip.len() {
+        let (a, b) = (clip[j], clip[(j + 1) % clip.len()]);
+        let inside = |p: (f64, f64)| sign * ((b.0 - a.0) * (p.1 - a.1) - (b.1 - a.1) * (p.0 - a.0)) >= 0.0;
+        let inter = |p: (f64, f64), q: (f64, f64)| {
+            let d1 = (b.0 - a.0) * (p.1 - a.1) - (b.1 - a.1) * (p.0 - a.0);
+            let d2 = (b.0 - a.0) * (q.1 - a.1) - (b.1 - a.1) * (q.0 - a.0);
+            let t = d1 / (d1 - d2);
+            (p.0 + t * (q.0 - p.0), p.1 + t * (q.1 - p.1))
+        };
+        let input = std::mem::take(&mut out);
+        if input.is_empty() {
+            break;
+        }
+        for k in 0..input.len() {
+            let (p, q) = (input[k], input[(k + 1) % input.len()]);
+            match (inside(p), inside(q)) {
+                (true, true) => out.push(q),
+                (true, false) => out.push(inter(p, q)),
+                (false, true) => {
+                    out.push(inter(p, q));
+                    out.push(q);
+                }
+                _ => {}
+            }
+        }
+    }
+    out
+}
+
+pub fn search_c12(rng: &mut Rng, thorough: bool) -> SearchResult {
+    use a5::core::cell::{cell_to_lonlat, get_pentagon};
+    use a5::core::serialization::deserialize;
+    let mut r = SearchResult::default();
+    r.rule = "parents of every resolution 0..28 (all parents of resolution <= 3; random ones on every face / quintant / orientation above) x all their children: great-circle distance of the centres <= 0.8*sqrt(parent area) (area 4*pi/N on the unit sphere); exact planar clipping (rescaled to lattice units) of each child polygon against the parent polygon in the parent's face frame: shared area > 0, the children together cover more than half of the parent. non-trivial = distinct (parent, child) pairs".into();
+    let mut parents: Vec<u64> = Vec::new();
+    let mut level = vec![0u64];
+    for res in -1..(if thorough { 4 } else { 3 }) {
+        let mut next = Vec::new();
+        for &c in &level {
+            next.extend(a5::cell_to_children(c, Some(res + 1)).unwrap());
+        }
+        parents.extend(next.iter().copied());
+        level = next;
+    }
+    r.exhaustive = true;
+    for _ in 0..(if thorough { 60_000 } else { 8_000 }) {
+        let res = rng.range_i(0, 28) as i32;
+        parents.push(crate::geocorr::random_cell(rng, res));
+    }
+    let mut worst_reach: f64 = 0.0;
+    let mut min_share: f64 = 1.0;
+    let mut min_cover: f64 = 1.0;
+    for &p in &parents {
+        let res = a5::get_resolution(p);
+        let nn: f64 = if res == 0 { 12.0 } else { 60.0 * 4f64.powi(res - 1) };
+        let reach = 0.8 * (4.0 * std::f64::consts::PI / nn).sqrt();
+        let pc = crate::cellsearch::unit(cell_to_lonlat(p).unwrap());
+        let children = a5::cell_to_children(p, None).unwrap();
+        let pcell = deserialize(p).unwrap();
+        // polygons in the CHILD's lattice units (built unscaled from the anchors, so that deep levels keep
+        // full precision); for face / quintant parents the ordinary face coordinates are precise enough
+        let lattice_poly = |cell: &a5::core::utils::A5Cell, factor: f64| -> Vec<(f64, f64)> {
+            if cell.resolution < 2 {
+                let sc = factor;
+                get_pentagon(cell).unwrap().get_vertices_vec().iter().map(|v| (v.x() * sc, v.y() * sc)).collect()
+            } else {
+                let (quintant, orientation) = a5::core::origin::segment_to_quintant(cell.segment, cell.origin());
+                let hr = (cell.resolution - 1) as usize;
+                let anchor = a5::core::hilbert::s_to_anchor(cell.s, hr, orientation);
+                a5::core::tiling::get_pentagon_vertices(0, quintant, &anchor).get_vertices_vec().iter().map(|v| (v.x() * factor, v.y() * factor)).collect()
+            }
+        };
+        // child depth hr_c = res: one child lattice unit = 2^-res face units
+        let child_units = 2f64.powi(res.max(1));
+        let ppoly: Vec<(f64, f64)> = if res < 2 { lattice_poly(&pcell, child_units) } else { lattice_poly(&pcell, 2.0) };
+        // translate to a local origin: the shoelace sum cancels catastrophically at lattice offsets ~2^28
+        let o = ppoly[0];
+        let ppoly: Vec<(f64, f64)> = ppoly.iter().map(|v| (v.0 - o.0, v.1 - o.1)).collect();
+        let parea = poly_area(&ppoly).abs();
+        let mut covered = 0.0;
+        for &c in &children {
+            r.evaluations += 1;
+            r.nontrivial += 1;
+            let cc = crate::cellsearch::unit(cell_to_lonlat(c).unwrap());
+            let d = crate::cellsearch::angle(pc, cc);
+            worst_reach = worst_reach.max(d / reach);
+            if !(d <= reach) {
+                r.viol("reach", format!("child {:x} of {:x}: centres {:e} rad apart, allowed 0.8*sqrt(parent area) = {:e}", c, p, d, reach));
+            }
+            let ccell = deserialize(c).unwrap();
+            if ccell.origin_id != pcell.origin_id {
+                continue;
+            }
+            let cpoly: Vec<(f64, f64)> = if ccell.resolution < 2 { lattice_poly(&ccell, child_units) } else { lattice_poly(&ccell, 1.0) };
+            let cpoly: Vec<(f64, f64)> = cpoly.iter().map(|v| (v.0 - o.0, v.1 - o.1)).collect();
+            let carea = poly_area(&cpoly).abs();
+            let shared = poly_area(&clip_convex(&cpoly, &ppoly)).abs();
+            covered += shared;
+            min_share = min_share.min(shared / carea);
+            if !(shared > 1e-9 * carea) {
+                r.viol("overlap", format!("child {:x} shares no interior area with its parent {:x} (planar clipping: {:e} of {:e})", c, p, shared, carea));
+            }
+        }
+        min_cover = min_cover.min(covered / parea);
+        if !(covered > 0.5 * parea) {
+            r.viol("cover", format!("children of {:x} cover only {:.3} of the parent's planar area", p, covered / parea));
+        }
+    }
+    r.sample(format!("worst centre distance / allowed reach = {:.4}; smallest shared fraction of a child = {:.4}; smallest covered fraction of a parent = {:.4}", worst_reach, min_share, min_cover));
+    r
+}
